@@ -20,6 +20,7 @@ Print Assumptions transclude_terminates.
    '{{', so at most 997 bytes plus the terminator are written *)
 Theorem marker_text_fits : forall j : nat, Nat.leb 1000 j = false -> (j - 2 + 1 <= 1100)%nat.
 Proof. intros j H. apply Nat.leb_gt in H. lia. Qed.
+Print Assumptions marker_text_fits.
 
 (* non-vacuity: a file including itself and a two-cycle terminate with the expected text *)
 Example self_and_cycle :
